@@ -79,3 +79,16 @@ def every_processed_packet_is_counted(ctx, rule, instance):
         reach = hp.reachable_from(0, avoid=avoid, avoid_edges=closed_edges)
         ctx.check(c.bb not in reach, rule, instance, hp, c.where(), 'on_packet_authenticated precedes process_decrypted_packet on every path of an open connection',
                   'a packet reaches process_decrypted_packet without being counted by on_packet_authenticated (other than on the is_closed() edge)')
+
+
+def in_flight_removed_from_either_path(ctx, rule, instance):
+    """Connection::remove_in_flight must try the current path and the previous path: a packet sent before a migration is
+    counted in the old path's in_flight; if only self.path is visited it is never subtracted (bytes in flight do not
+    return to zero, and the restored path stays window-limited after a failed validation)."""
+    F = ctx.facts
+    rif = ctx.pfn('Connection::remove_in_flight')
+    d = describer(F, rif)
+    uses_prev = any(D.has_field(d.rvalue(rv, i, j, 0), 'prev_path') for i, j, pl, rv, line in rif.assigns()) or any(D.has_field(arg_desc(F, c, k), 'prev_path') for c in rif.calls() for k in range(len(c.args)))
+    uses_cur = any(any(e[1] == 'path' for e in rv[2][1] if isinstance(e, list) and e[0] == 'f') for i, j, pl, rv, line in rif.assigns() if rv[0] == 'ref')
+    ctx.check(uses_prev and uses_cur, rule, instance, rif, rif.where(), 'visits self.path then self.prev_path',
+              'remove_in_flight no longer visits the previous path: packets sent before a migration are never subtracted from its in-flight counters')
